@@ -144,11 +144,14 @@ def nonNegMarginsList : List UTree → Bool
   | t :: ts => nonNegMargins t && nonNegMarginsList ts
 end
 
-/-- A box without content: no children, no height, no vertical padding or border (the boxes that can
-collapse through). -/
+/-- A box without in-flow content: every child is out of the flow (floats, absolutely positioned boxes,
+footnote calls: `block_container_layout` tests `find_last_in_flow_child(new_children) is None`), no height,
+no vertical padding or border — the boxes that can collapse through (CSS 2.1 §8.3.1 "no in-flow children");
+such a box sits where its margins collapse, possibly below its parent's content box, and does not advance
+the position. -/
 def isEmpty : UTree → Bool
-  | .mk b kids => kids.isEmpty && decide (b.h = 0) && decide (b.pt = 0) && decide (b.pb = 0) &&
-      decide (b.bt = 0) && decide (b.bb = 0)
+  | .mk b kids => kids.all (fun k => k.box.kind == .oof) && decide (b.h = 0) && decide (b.pt = 0) &&
+      decide (b.pb = 0) && decide (b.bt = 0) && decide (b.bb = 0)
 
 /-- Stacking of the children from the position `pos` (`none`: unknown, after a child with a negative
 margin somewhere): returns the final position, or `none` as first component when a child starts above the
